@@ -281,13 +281,17 @@ def run_case(i, rng, rec, tier, state):
         cases = [(a0 - 1e-9, cm), (a1 + 1e-9, cm), (am, c0 - 1e-9), (am, c1 + 1e-9), (a0 - 1, cm), (a1 + 1, cm), (am, c0 - 1), (am, c1 + 1),
                  (float("nan"), cm), (am, float("nan"))]
         a, c = cases[p1]
-        try:
-            F.get_shape(a, c)
-            rec.violation("out-of-domain-rejected", f"{fam}.get_shape/accepts-out-of-domain-parameter", {"family": fam, "a": a, "c": c})
-        except ValueError:
-            rec.ok("out-of-domain-rejected")
-        except Exception as e:
-            rec.violation("out-of-domain-rejected", f"{fam}.get_shape/out-of-domain-raises-{type(e).__name__}", {"family": fam, "a": a, "c": c})
+        # in every spelling of the call (positional, keywords, mixed; the documentation itself uses keywords)
+        for form, call in (("positional", lambda: F.get_shape(a, c)), ("keywords", lambda: F.get_shape(a=a, c=c)),
+                           ("keywords-swapped-order", lambda: F.get_shape(c=c, a=a)), ("mixed", lambda: F.get_shape(a, c=c))):
+            try:
+                call()
+                rec.violation("out-of-domain-rejected", f"{fam}.get_shape/accepts-out-of-domain-parameter" + ("" if form == "positional" else ":" + form),
+                              {"family": fam, "a": a, "c": c, "call_form": form})
+            except ValueError:
+                rec.ok("out-of-domain-rejected")
+            except Exception as e:
+                rec.violation("out-of-domain-rejected", f"{fam}.get_shape/out-of-domain-raises-{type(e).__name__}", {"family": fam, "a": a, "c": c, "call_form": form})
         rec.nontriv(fam, "ood", p1)
         return
     if kind == "ttet":
